@@ -125,6 +125,26 @@ func afterC06(w *World) {
 	if lateOnly {
 		w.probe("all-context-ends-after-return")
 	}
+	// nodes for which the per-node function yields no message are neither waited for nor counted: in a
+	// run without connection trouble, after the settle phase (every handler has returned, every gate is
+	// open) all nodes that *were* sent a message have answered, so a reply-collecting call with a live
+	// context whose per-node function skipped somebody must have completed - by quorum or as Incomplete
+	if clean && len(w.Cfg.Down) == 0 {
+		for _, c := range w.calls[1:] {
+			k := c.Info.Kind
+			if c.InvokeSeq == 0 || c.Op == nil || c.Op.PerNode == nil || len(c.Op.PerNode.Skip) == 0 || (k != "qc" && k != "async" && k != "corr") {
+				continue
+			}
+			if c.CtxEndSeq != 0 || c.Panic != "" || c.PostClose || w.mgrs[c.Mgr].closed {
+				continue
+			}
+			done := c.DoneSeq != 0
+			w.rule("C06.skipped-nodes-are-not-waited-for", done)
+			if !done {
+				w.violate("C06", "skipped-node-waited-for", "", "call t%d (%s): the per-node function skipped servers %v, every node that was sent a message has answered, the context is live - and the call has not completed: %s", c.Tok, c.Stub, c.Op.PerNode.Skip, w.whereIs(c))
+			}
+		}
+	}
 	// all-default per-node messages: counted per (server, method); a group is judged only if every
 	// call that contributes to it satisfies the preconditions of the exactly-once rule
 	emptyOK, emptyAll := map[emptyKey]int{}, map[emptyKey]int{}
